@@ -114,7 +114,7 @@ fn h11c_handshake_all_paths() {
         TARGET_PARSES = kani::any(); TARGET_TOKEN = kani::any(); kani::assume(TARGET_TOKEN < 200);
         CHANNEL_INLINE = kani::any(); BIND_SOURCE_PRESENT = kani::any(); FRAMES_OK = kani::any(); WRITE_OK = kani::any();
     }
-    let ret = kani::block_on(h11c_handshake(ContextRef(0), Sender(0, std::marker::PhantomData), mk_frames));
+    let ret = run_ready(h11c_handshake(ContextRef(0), Sender(0, std::marker::PhantomData), mk_frames));
     unsafe {
         let tcp = PROTOCOL == 0 || PROTOCOL == 1;
         let udp = PROTOCOL == 2;
@@ -137,5 +137,11 @@ fn h11c_handshake_all_paths() {
         kani::cover!(ret.is_ok() && udp && !CHANNEL_INLINE);
         kani::cover!(ret.is_err() && N_REPLY_400 == 1);
     }
+}
+/// every stub future is immediately ready, so the task completes within one poll (cheaper than kani::block_on's loop)
+pub fn run_ready<F: std::future::Future>(f: F) -> F::Output {
+    let mut f = std::pin::pin!(f);
+    let mut cx = std::task::Context::from_waker(std::task::Waker::noop());
+    match f.as_mut().poll(&mut cx) { std::task::Poll::Ready(v) => v, std::task::Poll::Pending => panic!("stub future pending") }
 }
 fn main() {}
